@@ -20,7 +20,7 @@ ASSUMPTIONS = ['helmert_exact rational evaluation (self-validated against mpmath
                'sign convention of the Australian technical manuals as written in the property statement: R = [[1,rz,-ry],[-rz,1,rx],[ry,-rx,1]]']
 N = {'quick': 1800, 'thorough': 30000}
 SHARDS = {'quick': 16, 'thorough': 32}
-REQUIRED_COUNTERS = ['shipped_sets_calls', 'random_sets_calls', 'vcv_judged', 'vcv_none_judged', 'roundtrip_judged']
+REQUIRED_COUNTERS = ['same_label_sequences', 'shipped_sets_calls', 'random_sets_calls', 'vcv_judged', 'vcv_none_judged', 'roundtrip_judged']
 VCV_KINDS = ['none', 'spd', 'rank1', 'rank2', 'zero', 'diag', 'cond1e8']
 
 
@@ -188,8 +188,24 @@ def run_shard(spec, ctx):
     ctx.info['catalogue_size'] = len(names)
     rnd = random.Random('%s-%s-%s' % (ID, spec['seed'], spec['shard']))
     mine = names[spec['shard'] % spec['nshards']::spec['nshards']]
+    # constants that share their direction labels and reference epoch with another constant (the five AGD66 sets, the
+    # ITRF2020->ITRF2014 pair ...) are visited together, interleaved, in every shard that owns one of them: a cache keyed
+    # on the labels would hand the second one the first one's parameters
+    groups = {}
+    for k, v in cat.items():
+        groups.setdefault((str(v.from_datum), str(v.to_datum), str(v.ref_epoch)), []).append(k)
+    extra = []
+    for k in list(mine):
+        t = cat[k]
+        for other in groups[(str(t.from_datum), str(t.to_datum), str(t.ref_epoch))]:
+            if other not in mine and other not in extra:
+                extra.append(other)
+    mine = mine + extra
+    ctx.info['same_label_groups'] = [g for g in groups.values() if len(g) > 1][:8]
+    order = []
     per = max(4, spec['n'] // (2 * max(1, len(mine))))
     n = 0
+    rnd.shuffle(mine)
     for name in mine:
         t = cat[name]
         has_sd = type(t.tf_sd) is ns.constants.TransformationSD and t.tf_sd.sd_tx is not None
@@ -201,6 +217,16 @@ def run_shard(spec, ctx):
                 ctx.sample({k: v for k, v in case.items()})
             n += 1
             judge(ns, ctx, case)
+            # interleave: the same point through another constant with the same labels
+            t0 = cat[name]
+            sibs = [o for o in groups[(str(t0.from_datum), str(t0.to_datum), str(t0.ref_epoch))] if o != name]
+            if sibs:
+                c2 = dict(case)
+                c2['set'] = rnd.choice(sibs)
+                if type(cat[c2['set']].tf_sd) is not ns.constants.TransformationSD:
+                    c2['vcv'], c2['vkind'] = None, 'none'
+                judge(ns, ctx, c2)
+                ctx.count('same_label_sequences')
     for i in range(spec['n'] // 2):
         with_sd = rnd.random() < 0.6
         t = rand_set(ns, rnd, with_sd)
